@@ -133,6 +133,8 @@ def run(ctx):
                 label="exhaustive: <=3 mounts, shared device, read-only mounts/servers, 3 mtimes, one class")
         ctx.tlc(SD, "BalanceBlock", "MC_BalanceBlock_bigB.cfg", timeout=2400,
                 label="exhaustive: <=3 mounts, two classes, replication 1-2")
+        ctx.tlc(SD, "BalanceBlock", "MC_BalanceBlock_bigC.cfg", timeout=2400,
+                label="exhaustive: <=5 mounts on <=4 servers (<=2 per server), shared device, old/new mtimes, one class")
     else:
         ctx.tlc(SD, "BalanceBlock", "MC_BalanceBlock.cfg", timeout=1500,
                 label="exhaustive: <=3 mounts on <=3 servers, shared device, old/new mtimes, one class")
